@@ -388,6 +388,9 @@ func vgfReedSolomon(f vgfField, seed int64, thorough bool) *vgfRun {
 	rounds := 2
 	if thorough {
 		rounds = 6
+		if f.size > 256 {
+			rounds = 3
+		}
 	}
 	for round := 0; round < rounds; round++ {
 		order := rng.Perm(maxEcc)
